@@ -872,8 +872,21 @@ func r2(w *World, r *Report) {
 		okRet := false
 		for _, g := range w.withModuleCallees(inf, 2) {
 			for _, fs := range w.fieldStores(g) {
-				if fs.Field.Name() == "LastBlockAppHash" && containsAny(w.mayCanons(fs.Val, 4), "recv.lastBlockCtx.AppHash()", "recv.metaDB.LastBlockContext().AppHash()") {
+				if fs.Field.Name() != "LastBlockAppHash" {
+					continue
+				}
+				if containsAny(w.mayCanons(fs.Val, 4), "recv.lastBlockCtx.AppHash()", "recv.metaDB.LastBlockContext().AppHash()") {
 					okRet = true
+				}
+				// AppHash() of a local that holds the loaded context (or its legacy substitute)
+				if call, isC := stripConv(fs.Val).(*ssa.Call); isC && callName(call.Common()) == "AppHash" {
+					if rcv, _ := callRecvArgs(call.Common()); rcv != nil {
+						for _, c := range w.mayCanons(rcv, 4) {
+							if c == "recv.lastBlockCtx" || c == "recv.metaDB.LastBlockContext()" {
+								okRet = true
+							}
+						}
+					}
 				}
 			}
 		}
